@@ -43,3 +43,5 @@ func vKnown(key string)
 func vUseInt(on bool)
 func vParam(name string, def int) int
 func vEngine() bool
+func vOr(a, b bool) bool
+func vAnd(a, b bool) bool
